@@ -1,0 +1,51 @@
+//go:build verif
+// +build verif
+
+package wasp
+
+import "sync/atomic"
+
+// Verification hooks. Compiled only with the "verif" build tag; none of them
+// changes behaviour unless a test harness registers a function.
+
+var verifPointFn atomic.Value // of func(name string, arg interface{})
+
+// VerifSetPoint registers fn to be called at every named verification point.
+func VerifSetPoint(fn func(name string, arg interface{})) {
+	verifPointFn.Store(fn)
+}
+
+func verifPoint(name string, arg interface{}) {
+	if fn, ok := verifPointFn.Load().(func(string, interface{})); ok && fn != nil {
+		fn(name, arg)
+	}
+}
+
+// VerifMIDPool exposes the packet identifier allocator.
+type VerifMIDPool interface {
+	Get() int32
+	Put(int32)
+}
+
+// VerifNewMIDPool returns a fresh allocator for [min, max].
+func VerifNewMIDPool(min, max int32) VerifMIDPool { return newMIDPool(min, max) }
+
+// VerifPoolFree returns a snapshot of the allocator's free intervals as
+// (from, to] pairs, and whether the allocator has been initialised.
+func VerifPoolFree(p VerifMIDPool) [][2]int32 {
+	m := p.(*simpleMidPool)
+	m.mtx.Lock()
+	defer m.mtx.Unlock()
+	out := make([][2]int32, len(m.intervals))
+	for i, iv := range m.intervals {
+		out[i] = [2]int32{iv.from, iv.to}
+	}
+	return out
+}
+
+// VerifWriterPool returns the allocator used by a writer built by NewWriter.
+func VerifWriterPool(w Writer) VerifMIDPool { return w.(*writer).midPool }
+
+// VerifSetWriterPool replaces the allocator of a writer (before Run) by a
+// fresh one for [min, max].
+func VerifSetWriterPool(w Writer, min, max int32) { w.(*writer).midPool = newMIDPool(min, max) }
